@@ -34,7 +34,7 @@ def scenarios(tier):
 
 def gen(rng, scenario, tier):
     d = rng.randint(1, 3)
-    cfg = {"k_nn": rng.choice([1, 2, 3, 4, 5, 8, 12]), "sampling_times": rng.randint(8, 30), "alpha": rng.choice([0.01, 0.1, 0.3])}
+    cfg = {"k_nn": rng.choice([1, 2, 3, 4, 5, 8, 12]), "sampling_times": rng.randint(8, 30), "alpha": rng.choice([0.01, 0.1, 0.3, 0.6, 0.8])}
     bs, drifts = workload.batches(rng, rng.randint(4, 10), d, rng.choice([3, 6, 6]), 34, equal=rng.random() < 0.4, drift_rate=rng.choice([0.3, 0.5]),
                                   nd=rng.choice([1, 2, 2]), dup=rng.choice([0.0, 0.2, 0.4]))
     # duplicates across consecutive batches
